@@ -148,6 +148,8 @@ class Prop:
                 return 'the schema with `enum: @name` and the schema with the list inline differ: %s vs %s' % (m.group(1), m.group(2))
             # whether the example is a member of the list is the enum rule's meaning: C01's subject, not C17's
             return None
+        if ' ast=DIFF' in out:
+            return 'GetAST() of the rule does not list the entries of Values(): ' + out.split(' ast=')[1][:60]
         text = bytes.fromhex(case.line.split(' ')[1]) if case.line.split(' ')[1] != '-' else b''
         m = re.match(r'check=(\S+) len=(\S+) values=(\S+)', out)
         if not m:
